@@ -13,6 +13,7 @@ import AdaptaVerif.Lemmas.ApspComplete
 import AdaptaVerif.Lemmas.ApspFWInit
 import AdaptaVerif.Lemmas.ApspLayout
 import AdaptaVerif.Lemmas.PairingHeap
+import AdaptaVerif.Lemmas.ApspDijkstraHeap
 namespace AdaptaVerif.Props.C17
 open AdaptaVerif.Model.ShortestPaths AdaptaVerif.Spec.Apsp AdaptaVerif.Check.Apsp AdaptaVerif.Lemmas.Apsp
 
@@ -177,35 +178,43 @@ theorem layoutD_correct (sel : Selector) (hsel : SelSpec sel) (n : Nat) (es : Li
 section Heap
 open AdaptaVerif.Model.PairingHeap AdaptaVerif.Lemmas.PairingHeap
 
+/-- the two comparisons used (`std::less` on rational keys for the operation-sequence
+    correspondence, `CompareNodes` on distances with DBL_MAX on top for Dijkstra) are strict weak
+    orders -/
+theorem heap_comparisons_lawful : LtLaws ltRat ∧ LtLaws ltDist := ⟨ltRat_laws, ltDist_laws⟩
+
 /-- Over ALL legal operation sequences (insert / deleteMin / decreaseKey to a not-larger key /
-    merge) starting from the empty heap, the model of `PairingHeap<T>` stays a heap-ordered root,
-    and `findMin` (= what `extractMin` returns) is an element of the heap with minimal key. -/
-theorem pairingheap_findMin_is_minimum (ops : List Op) (hl : LegalSeq .nil ops) (k : Rat) (i : Nat)
-    (hf : findMin (ops.foldl applyOp .nil) = some (k, i)) :
-    (k, i) ∈ elems (ops.foldl applyOp .nil) ∧ ∀ x ∈ elems (ops.foldl applyOp .nil), k ≤ x.1 := by
-  have hg := good_run ops .nil ⟨trivial, ordered_nil⟩ hl
-  exact findMin_spec hg.1 hg.2 hf
+    merge) starting from the empty heap, for any key type and lawful comparison, the model of
+    `PairingHeap<T,TCompare>` stays a heap-ordered root, and `findMin` (= what `extractMin`
+    returns) is an element of the heap with minimal key. -/
+theorem pairingheap_findMin_is_minimum {κ : Type} [DecidableEq κ] (lt : κ → κ → Bool) (hl : LtLaws lt)
+    (ops : List (Op κ)) (hlg : LegalSeq lt .nil ops) (k : κ) (i : Nat)
+    (hf : findMin (ops.foldl (applyOp lt) .nil) = some (k, i)) :
+    (k, i) ∈ elems (ops.foldl (applyOp lt) .nil) ∧ ∀ x ∈ elems (ops.foldl (applyOp lt) .nil), lt x.1 k = false := by
+  have hg := good_run hl ops .nil good_nil hlg
+  exact findMin_spec hl hg.1 hg.2 hf
 
 /-- non-vacuity: a legal sequence with a merge, a decreaseKey and equal keys -/
-example : LegalSeq .nil [.insert 3 0, .insert 1 1, .merge [(2, 2), (1, 3)], .decreaseKey 0 (1/2), .deleteMin] ∧
-    findMin ([Op.insert 3 0, .insert 1 1, .merge [(2, 2), (1, 3)], .decreaseKey 0 (1/2), .deleteMin].foldl applyOp .nil)
+example : LegalSeq ltRat .nil [.insert 3 0, .insert 1 1, .merge [(2, 2), (1, 3)], .decreaseKey 0 (1/2), .deleteMin] ∧
+    findMin ([Op.insert 3 0, .insert 1 1, .merge [(2, 2), (1, 3)], .decreaseKey 0 (1/2), .deleteMin].foldl (applyOp ltRat) .nil)
       = some (1, 1) := by
   constructor
-  · simp only [LegalSeq, Legal, and_true, true_and]
+  · simp only [LegalSeq, Legal, and_true, true_and, le]
     decide +kernel
   · decide +kernel
 
 /-- The stored multiset changes exactly as the multiset operations prescribe (`List.Perm` on the
     `(key, id)` pairs): insert adds, deleteMin removes the root pair, merge unites, decreaseKey
     replaces one pair `(old, id)` by `(new, id)` (or leaves the heap alone if `id` is absent). -/
-theorem pairingheap_refines_multiset (h : PTree) (hg : Good h) :
-    (∀ k i, (elems (Model.PairingHeap.insert h k i)).Perm ((k, i) :: elems h)) ∧
-    (∀ k i, findMin h = some (k, i) → (elems h).Perm ((k, i) :: elems (deleteMin h))) ∧
+theorem pairingheap_refines_multiset {κ : Type} [DecidableEq κ] (lt : κ → κ → Bool) (hl : LtLaws lt)
+    (h : PTree κ) (hg : Good lt h) :
+    (∀ k i, (elems (Model.PairingHeap.insert lt h k i)).Perm ((k, i) :: elems h)) ∧
+    (∀ k i, findMin h = some (k, i) → (elems h).Perm ((k, i) :: elems (deleteMin lt h))) ∧
     (findMin h = none ↔ elems h = []) ∧
-    (∀ items, (elems (merge h (build items))).Perm (elems h ++ elems (build items))) ∧
-    (∀ i nk, decreaseKey h i nk = h ∨
-      ∃ ok rest, (elems h).Perm ((ok, i) :: rest) ∧ (elems (decreaseKey h i nk)).Perm ((nk, i) :: rest)) := by
-  refine ⟨fun k i => (insert_spec hg.1 hg.2 k i).1, ?_, findMin_none, ?_, ?_⟩
+    (∀ items, (elems (merge lt h (build lt items))).Perm (elems h ++ elems (build lt items))) ∧
+    (∀ i nk, (decreaseKey lt h i nk = h ∧ ∀ x ∈ elems h, x.2 ≠ i) ∨
+      ∃ ok rest, (elems h).Perm ((ok, i) :: rest) ∧ (elems (decreaseKey lt h i nk)).Perm ((nk, i) :: rest)) := by
+  refine ⟨fun k i => (insert_spec hl hg.1 hg.2 k i).1, ?_, findMin_none, ?_, ?_⟩
   · intro k i hf
     cases h with
     | nil => simp [findMin] at hf
@@ -214,14 +223,43 @@ theorem pairingheap_refines_multiset (h : PTree) (hg : Good h) :
       subst hs
       simp only [findMin, Option.some.injEq, Prod.mk.injEq] at hf
       obtain ⟨rfl, rfl⟩ := hf
-      exact (deleteMin_spec hg.2).1
+      exact (deleteMin_spec hl hg.2).1
   · intro items
-    exact (merge_spec hg.1 hg.2 (good_build items).1 (good_build items).2).1
+    exact (merge_spec hl hg.1 hg.2 (good_build hl items).1 (good_build hl items).2).1
   · intro i nk
-    rcases decreaseKey_spec hg.1 hg.2 i nk with e | ⟨ok, rest, h1, h2, _, _⟩
+    rcases decreaseKey_spec hl hg.1 hg.2 i nk with e | ⟨ok, rest, h1, h2, _, _⟩
     · exact Or.inl e
     · exact Or.inr ⟨ok, rest, h1, h2⟩
 
 end Heap
+
+/-! ### (3') Dijkstra exactly as coded: driven by the pairing heap -/
+
+/-- `dijkstraHeap` runs Dijkstra the way shortest_paths.h does — all nodes inserted into the
+    pairing heap, repeated `extractMin`, relaxation of the neighbours with `decreaseKey` on the
+    heap — and returns, for EVERY valid multigraph (weights ≥ 0) and source, the exact
+    shortest-path vector.  (Proof: simulation of the abstract-queue run; the invariant "the heap
+    holds exactly the pairs (d[v], v) of the unsettled nodes and is heap-ordered" is kept by
+    extractMin and by every decreaseKey.) -/
+theorem dijkstraHeap_correct (g : Graph) (hv : Valid g) (s j : Nat) (hs : s < g.n) (hj : j < g.n) :
+    IsDist g s j (Vec.at (dijkstraHeap g s) j) :=
+  dijkstraHeap_exact hv hs hj
+
+theorem johnsonsHeap_get (g : Graph) {i : Nat} (hi : i < g.n) (j : Nat) :
+    (johnsonsHeap g).get i j = Vec.at (dijkstraHeap g i) j := by
+  unfold johnsonsHeap Mat.get Vec.at
+  simp [hi]
+
+/-- `johnsons` with the real queue discipline returns the exact all-pairs matrix. -/
+theorem johnsonsHeap_correct (g : Graph) (hv : Valid g) : IsApsp g (johnsonsHeap g).get := by
+  intro i j hi hj
+  rw [johnsonsHeap_get g hi j]
+  exact dijkstraHeap_exact hv hi hj
+
+/-- concrete run (parallel edges, self-loop, zero weight, unreachable vertex): distances and the
+    order in which nodes leave the heap -/
+example : dijkstraHeap ⟨4, [(0, 1, 1), (0, 1, 5), (1, 1, 3), (1, 2, 0)]⟩ 0 = #[some 0, some 1, some 1, none] ∧
+    dijkstraHeapOrder ⟨4, [(0, 1, 1), (0, 1, 5), (1, 1, 3), (1, 2, 0)]⟩ 0 = [0, 1, 2, 3] := by
+  decide +kernel
 
 end AdaptaVerif.Props.C17
